@@ -39,6 +39,10 @@ fn core_only(rng: &mut Rng, with_timers: bool) -> wf::WfRecipe {
         let extra = rng.pick_str(&[" Use 2\u{00A0}œufs now.", " Beat 3 eggs.", " Step 2: rest.", " Fold 3\u{3000}times.", " Add 1\u{202F}000 crumbs.", " Turn 2 x.", " −18 is cold.", " Level 5."]);
         for b in r.blocks.iter_mut().rev() { if let Block::Step(items) = b { match items.last_mut() { Some(Item::Text(t)) => t.push_str(extra), _ => items.push(Item::Text(extra.to_string())) } break; } }
     }
+    // with a front matter a `>>` line is ordinary step text unless its key is `[...]` on both sides (and MODES is on)
+    if r.front.is_some() && rng.chance(1, 2) {
+        r.blocks.push(Block::Step(vec![Item::Text(rng.pick_str(&[">> see note [1]: stir well", ">> [tip: keep warm", ">> note]: done", ">> plain: text"]).to_string())]));
+    }
     r
 }
 
@@ -97,6 +101,17 @@ pub fn run(ctx: &mut Ctx) {
             let img = r_analysis(&res, fm);
             ctx.count(&format!("converse:{}", FLAGS.iter().find(|f| f.0 == *flag).map(|f| f.1).unwrap_or("?")));
             if !pred(&img) { ctx.oracle_fail(format!("ext={ext} (flag {flag} off) conv={conv} input={input:?}"), format!("with the extension disabled the syntax is not read as core text: {img}"), format!("c02:converse:{flag}")); }
+            // the metadata-only entry point of the same parser has to read a bracketed key the same way
+            if *flag == 1 << 6 {
+                let parser = cooklang::CooklangParser::new(cooklang::Extensions::from_bits_retain(ext), if *conv == 0 { cooklang::Converter::empty() } else { cooklang::Converter::bundled() });
+                if let Ok(m) = crate::util::guarded(|| parser.parse_metadata(input)) {
+                    let full: Vec<String> = res.output().map(|r| r.metadata.map.iter().map(|(k, v)| format!("{k:?}={v:?}")).collect()).unwrap_or_default();
+                    let only: Vec<String> = m.output().map(|md| md.map.iter().map(|(k, v)| format!("{k:?}={v:?}")).collect()).unwrap_or_default();
+                    if m.report().iter().any(|d| d.is_error()) || full != only {
+                        ctx.oracle_fail(format!("ext={ext} (MODES off) conv={conv} input={input:?} through parse_metadata"), format!("parse_metadata reads the bracketed key differently from parse: {only:?} vs {full:?}; errors: {}", m.report().iter().filter(|d| d.is_error()).map(r_diag_full).collect::<Vec<_>>().join(" ")), "c02:converse:parse_metadata".into());
+                    }
+                }
+            }
         }
     }
 }
